@@ -9,6 +9,12 @@ use cert::{key_pair_algorithm, CertificateBuilder, KeyPairAlgorithm};
 fn main() -> anyhow::Result<()> {
 	let opts = options().run();
 
+	// `<name>.pem` and `<name>.key.pem` of the two base names have to be four different files
+	let (cert, ca) = (&opts.cert_file_name, &opts.ca_file_name);
+	if cert == ca || *cert == format!("{ca}.key") || *ca == format!("{cert}.key") {
+		anyhow::bail!("--cert-file-name {cert:?} and --ca-file-name {ca:?} name the same file");
+	}
+
 	let ca = CertificateBuilder::new()
 		.signature_algorithm(opts.keypair_algorithm)?
 		.certificate_authority()
